@@ -22,7 +22,7 @@ func init() {
 	core.Register(&core.Prop{
 		ID:    "C06",
 		Level: "exploration",
-		Rule: "source views {on-disk tree, synthetic tree, synthetic fan-out of 150-400 files, SubDirFS, include-filtered view} x request scripts of an independent reference receiver {all in order, reverse, random subset, burst of all ids before any DATA is consumed, request on STAT arrival while the walk is streaming, none} x invalid requests {none, duplicate, never-announced id, non-file id} x stream capacity {0,1,2,8,64} and seeded delays; every packet the real Send emits is checked online by a protocol monitor written from the protocol text. " +
+		Rule: "Plus the view sizesweep (1 session of 12): every file size from 48 below to 4 above one and two 32 KiB read buffers. source views {on-disk tree, synthetic tree, synthetic fan-out of 150-400 files, SubDirFS, include-filtered view} x request scripts of an independent reference receiver {all in order, reverse, random subset, burst of all ids before any DATA is consumed, request on STAT arrival while the walk is streaming, none} x invalid requests {none, duplicate, never-announced id, non-file id} x stream capacity {0,1,2,8,64} and seeded delays; every packet the real Send emits is checked online by a protocol monitor written from the protocol text. " +
 			"non-trivial = at least one multi-chunk or >132-file request script completed, or an invalid request was rejected; distinct by (view, script, schedule) fingerprint",
 		Assumptions: []string{"the reference receiver reads continuously (it buffers DATA) like any deployed receiver", "ids are zero-based STAT positions as documented in receive.go"},
 		Cases: func(tier string) int {
@@ -85,6 +85,10 @@ func c06Run(c *core.Ctx) *core.Result {
 		// scale: more entries than 16 bits can number
 		viewKind = "hugefanout"
 		mode = "subset"
+	}
+	if viewKind != "hugefanout" && core.NewRand(core.Mix(c.Seed, "C06-size-sweep", c.Index)).P(1, 12) {
+		// every file size from 48 below to 4 above one and two read buffers
+		viewKind = "sizesweep"
 	}
 	invalid := ""
 	if R.P(1, 5) {
@@ -209,6 +213,21 @@ func c06Run(c *core.Ctx) *core.Result {
 				content[e.Path] = e.Data
 			}
 		}
+	case "sizesweep":
+		t := &tree.Tree{}
+		sr := core.NewRand(core.Mix(c.Seed, "C06-size-sweep-data", c.Index))
+		for m := 1; m <= 2; m++ {
+			for d := -48; d <= 4; d++ {
+				t.Entries = append(t.Entries, tree.Entry{Path: fmt.Sprintf("s%d%+03d", m, d), Type: tree.File, Perm: 0644, Mtime: 1e18, Data: sr.Bytes(m*32768 + d)})
+			}
+		}
+		t.Sort()
+		fs = newSynthFS(t)
+		want = t.Entries
+		for _, e := range t.Entries {
+			content[e.Path] = e.Data
+		}
+		r.Count("views_sweeping_file_sizes_around_the_read_buffer", 1)
 	case "hugefanout":
 		n := 65500 + R.Intn(2500)
 		t := &tree.Tree{}
